@@ -117,6 +117,21 @@ impl EventGen for ReuseElement {
             pos.update_size(&sz);
         }
         pos.update_shape(&instance_element.name);
+        if instance_element.name == "line" {
+            // A line is given by both of its end points, which a position and a size
+            // cannot express: move it as a whole instead, so that the top-left of its
+            // bounding box ends up at the requested point.
+            instance_element.expand_compound_pos();
+            if let Ok(Some(bb)) = instance_element.bbox() {
+                if let Some(x) = pos.xmin {
+                    pos.dx = Some(pos.dx.unwrap_or(0.) + x - bb.x1);
+                }
+                if let Some(y) = pos.ymin {
+                    pos.dy = Some(pos.dy.unwrap_or(0.) + y - bb.y1);
+                }
+                pos.update_size(&bb.size());
+            }
+        }
         pos.set_position_attrs(&mut instance_element);
 
         let res = if let (false, Some((start, end))) = (
